@@ -92,6 +92,10 @@ pub trait Prop: Sync {
     fn timeout(&self) -> u64 {
         20
     }
+    /// may a failing case be shrunk by deleting bytes / lowering the width?  (false when `aux` describes the HTML)
+    fn shrinkable(&self) -> bool {
+        true
+    }
 }
 
 pub const IMPL_TIMEOUT: u64 = 20;
@@ -324,6 +328,9 @@ fn cmd_run(args: &[String]) {
 
     // 4. shrink what was found (oracle findings by the oracle, disagreements by re-running both sides)
     for f in findings.iter_mut() {
+        if !prop.shrinkable() {
+            continue;
+        }
         let before = f.case.html.len();
         if f.kind == "oracle" {
             let pred = |t: &Case| {
